@@ -101,6 +101,13 @@ def run_cell(md, c):
         out["utils_back"] = [float(x) for x in r]
     except Exception as e:  # noqa: BLE001
         out["utils_back"] = err(e)
+    # 4b. tilt factors: float64 scalars of frame 0, and the float32 per-frame arrays as one vectorised call
+    try:
+        out["tilt_scalar"] = lst(uc.lengths_and_angles_to_tilt_factors(*[float(x) for x in L[0]], *[float(x) for x in A[0]]))
+        tv = uc.lengths_and_angles_to_tilt_factors(L[:, 0], L[:, 1], L[:, 2], A[:, 0], A[:, 1], A[:, 2])
+        out["tilt_frames"] = lst(np.asarray(tv).T)            # one row (lx, ly, lz, xy, xz, yz) per frame
+    except Exception as e:  # noqa: BLE001
+        out["tilt_scalar"] = err(e)
     # 5. all-zero / None vectors mean "no cell"
     t3 = md.Trajectory(np.zeros((nf, 1, 3), dtype=np.float32), top, unitcell_lengths=L.copy(), unitcell_angles=A.copy())
     t3.unitcell_vectors = np.zeros((nf, 3, 3), dtype=np.float32)
@@ -244,12 +251,83 @@ def run_getter_history(md, h):
     return out
 
 
+def run_guard(md, d, g):
+    """validity guards.  g["kind"]:
+    "check_valid": state (hl, ha, nl, na) -> error class of t._check_valid_unitcell() and of t.save(<.pdb>, <.dcd>), and what
+                   unitcell_volumes does;
+    "from_vectors": utils.box_vectors_to_lengths_and_angles on arrays of the given shapes;
+    "radians": utils.lengths_and_angles_to_box_vectors with all angles below 2 pi degrees: a warning, not an error."""
+    from mdtraj.utils import unitcell as uc
+    k = g["kind"]
+    if k == "check_valid":
+        nf = g["frames"]
+        top = md.Topology()
+        top.add_atom("C", md.element.carbon, top.add_residue("ALA", top.add_chain()))
+        L = np.array(g["lengths"], dtype=np.float32) if g["lengths"] is not None else None
+        A = np.array(g["angles"], dtype=np.float32) if g["angles"] is not None else None
+        t = md.Trajectory(np.zeros((nf, 1, 3), dtype=np.float32), top, unitcell_lengths=L, unitcell_angles=A)
+        out = {}
+        try:
+            t._check_valid_unitcell()
+            out["check"] = "ok"
+        except Exception as e:  # noqa: BLE001
+            out["check"] = type(e).__name__
+        for ext in (".pdb", ".dcd"):
+            try:
+                t.save(os.path.join(d, "g%d%s" % (g["id"], ext)))
+                out["save" + ext] = "ok"
+            except Exception as e:  # noqa: BLE001
+                out["save" + ext] = type(e).__name__
+        try:
+            v = t.unitcell_volumes
+            out["volumes"] = "none" if v is None else ["array", int(np.asarray(v).shape[0])]
+        except Exception as e:  # noqa: BLE001
+            out["volumes"] = type(e).__name__
+        out["have"] = bool(t._have_unitcell)
+        return out
+    if k == "from_vectors":
+        try:
+            arrs = [np.ones(sh, dtype=np.float64) + i for i, sh in enumerate(g["shapes"])]
+            with np.errstate(all="ignore"):
+                r = uc.box_vectors_to_lengths_and_angles(*arrs)
+            return {"result": "ok", "shape": list(np.asarray(r[0]).shape)}
+        except Exception as e:  # noqa: BLE001
+            return {"result": type(e).__name__}
+    if k == "radians":
+        with warnings.catch_warnings(record=True) as w:
+            warnings.simplefilter("always")
+            try:
+                a, b, c = uc.lengths_and_angles_to_box_vectors(*[float(x) for x in g["lengths"]], *[float(x) for x in g["angles"]])
+                return {"result": "ok", "warned": any("radians" in str(x.message) for x in w), "vectors": [lst(a), lst(b), lst(c)]}
+            except Exception as e:  # noqa: BLE001
+                return {"result": type(e).__name__}
+    if k == "tiny_description":
+        # a (possibly tiny, possibly relabelled) description assigned to unitcell_vectors: kept unless ALL entries are below 1e-15
+        top = md.Topology()
+        top.add_atom("C", md.element.carbon, top.add_residue("ALA", top.add_chain()))
+        W = np.array(g["vectors"], dtype=np.float64)
+        t = md.Trajectory(np.zeros((W.shape[0], 1, 3), dtype=np.float32), top)
+        try:
+            with np.errstate(all="ignore"):
+                t.unitcell_vectors = W
+            return {"result": "ok", "lengths": lst(t.unitcell_lengths), "angles": lst(t.unitcell_angles)}
+        except Exception as e:  # noqa: BLE001
+            return {"result": type(e).__name__}
+    return {"result": "unknown guard kind"}
+
+
 def main():
     payload = json.load(sys.stdin)
     import mdtraj as md
     out = {"cells": [run_cell(md, c) for c in payload.get("cells", [])]}
     if payload.get("getter_histories"):
         out["getter_histories"] = [run_getter_history(md, h) for h in payload["getter_histories"]]
+    if payload.get("guards"):
+        d = tempfile.mkdtemp(prefix="c17g-", dir=".")
+        try:
+            out["guards"] = [run_guard(md, d, g) for g in payload["guards"]]
+        finally:
+            shutil.rmtree(d, ignore_errors=True)
     if payload.get("saveload"):
         d = tempfile.mkdtemp(prefix="c17sl-", dir=".")
         try:
